@@ -13,7 +13,7 @@
    SOH inside the body does not disturb the grammar: the body is delimited by its length.
    No proofs here (Lemmas/FramingL.v). *)
 From Coq Require Import NArith List Bool.
-From AF Require Import Base.Sx.
+From AF Require Import Base.Sx Py.Utf8.
 Import ListNotations.
 Open Scope N_scope.
 
@@ -76,8 +76,9 @@ Definition body_ok (body : str) : bool :=
 (* "10=" d1 d2 d3 SOH and nothing else; the three digits must spell cks *)
 Definition trailer_ok (cks : N) (t : str) : bool :=
   match t with
-  | [49; 48; 61; d1; d2; d3; 1] =>
-      ascii_digit d1 && ascii_digit d2 && ascii_digit d3
+  | [c1; c0; ce; d1; d2; d3; soh] =>
+      N.eqb c1 49 && N.eqb c0 48 && N.eqb ce 61 && N.eqb soh 1
+      && ascii_digit d1 && ascii_digit d2 && ascii_digit d3
       && N.eqb (100 * (d1 - 48) + 10 * (d2 - 48) + (d3 - 48)) cks
   | _ => false
   end.
@@ -110,6 +111,10 @@ Definition well_framedb (s : str) : bool :=
           end
       end
   end.
+
+(* What AsyncFIXConnection.send_msg hands to the transport for the text the encoder returned:
+   frame.encode("latin-1"); None = UnicodeEncodeError raised before anything is written. *)
+Definition wire (frame : str) : option str := latin1 frame.
 
 (* The same grammar as a proposition (FramingL.well_framedb_iff relates the two). *)
 Definition well_framed (s : str) : Prop :=
